@@ -322,7 +322,18 @@ func init() {
 			sub := addNode(w, Node{Name: "sub", Kind: KStreamToSub, Ins: []InSpec{{Name: "in", From: subFrom}}, Outs: []OutSpec{{Name: "substream"}}})
 			// separators incl. multi-character ones that share characters with the end of the member paths
 			sep := []string{" ", ",", ":", "+", ".o0,", "txt+"}[t.Choose(simrt.StGen, 6, 0)]
-			joinIns := []InSpec{{Name: "x", From: []Edge{{sub, "substream"}}, Join: true, Sep: sep}}
+			carrier := Edge{sub, "substream"}
+			carrierTagged := false
+			if t.Choose(simrt.StGen, 5, 0) == 1 {
+				carrierTagged = true
+				// the sub-stream carrier passes a tagging component on its way to the
+				// joined port (the only way to give the joining task a tag)
+				tg := addNode(w, Node{Name: "tagc", Kind: KMapToTags, TagKey: "grp",
+					Ins: []InSpec{{Name: "in", From: []Edge{carrier}}}, Outs: []OutSpec{{Name: "out"}}})
+				carrier = Edge{tg, "out"}
+				c.Probe("carrier-through-a-tagger")
+			}
+			joinIns := []InSpec{{Name: "x", From: []Edge{carrier}, Join: true, Sep: sep}}
 			if t.Choose(simrt.StGen, 3, 0) == 1 {
 				// a second joined in-port on the same process, fed by its own sub-stream
 				n2 := itemCounts[t.Choose(simrt.StGen, 5, 0)]
@@ -508,7 +519,8 @@ func init() {
 					return Viol("join-members", "", "second joining process: placeholder expanded to %v (resolved: %v); its sub-stream was %v", jbs[0].Joined, gotB, wantB)
 				}
 			}
-			if nameFromJoined || len(jn.Params) > 0 {
+			if nameFromJoined || len(jn.Params) > 0 || carrierTagged {
+				// (a tag on the carrier's random path is not predicted by the reference)
 				if !completedOK(inc) {
 					return Viol("join-no-completion", "", "workflow with a joined in-port did not complete: %s", endDesc(inc))
 				}
